@@ -117,9 +117,13 @@ func newCompressFilter(cfg *config) Filter {
 
 func (f *compressFilter) Do(cmd string, req *simpleRequest) FilterStatus {
 	// skip if compression config is null
-	if f.cfg == nil ||
-		f.cfg.GetRedisOption() == nil ||
-		f.cfg.GetRedisOption().GetCompression() == nil {
+	if f.cfg == nil {
+		return Continue
+	}
+	// the configuration may be replaced at any time (config.Update): look at
+	// the compression section once and keep working with what was seen.
+	cfg := f.cfg.GetRedisOption().GetCompression()
+	if cfg == nil {
 		return Continue
 	}
 
@@ -131,7 +135,6 @@ func (f *compressFilter) Do(cmd string, req *simpleRequest) FilterStatus {
 	}
 
 	// skip if the compression is not enabled.
-	cfg := f.cfg.GetRedisOption().GetCompression()
 	if !cfg.Enable {
 		return Continue
 	}
